@@ -158,12 +158,13 @@ class Reference:
                             ga, gb = t.tx2g(a), t.tx2g(b - 1)
                             L.append(line('CDS', min(ga, gb), max(ga, gb) + 1, frame))
                     off += n
-                if cds_g and t.cds_end is not None and t.cds_end < t.length() and getattr(t, 'utr3', True):
-                    # 3'UTR segments (after the stop codon)
+                if cds_g and cds_g[1] < t.length() and getattr(t, 'utr3', True):
+                    # 3'UTR segments: GENCODE convention, the UTR starts right after the CDS
+                    # and therefore includes the stop codon
                     off = 0
                     for s, e in exs:
                         n = e - s
-                        a, b = max(off, t.cds_end), off + n
+                        a, b = max(off, cds_g[1]), off + n
                         if a < b:
                             ga, gb = t.tx2g(a), t.tx2g(b - 1)
                             L.append(line('UTR', min(ga, gb), max(ga, gb) + 1))
